@@ -1,6 +1,7 @@
 // C09 Each kill plugin's first choice follows its documented ranking policy
 // (DESIGN.md §C09). Siblings with generated statistics; the first cgroup the
 // real plugin attempts is compared with the acceptable set of the RankModel.
+#include <array>
 #include "killcommon.h"
 #include "rankmodel.h"
 
@@ -44,7 +45,98 @@ Th genThreshold(int64_t swapTotalBytes) {
   return t;
 }
 
+// A sibling growing at exactly the configured fractional ratio p/q (1.3 = 13/10): with the moving average
+// avg1 = floor(u0/4)*0.75 + u1/4 the history u0 = 4K(4q-p)/3, u1 = pK gives avg1 = qK exactly. A larger
+// sibling shrinks (ratio below p/q), nobody reaches size_threshold 100: the grower is the only right answer.
+Json::Value genExactGrowth() {
+  Json::Value sc(Json::objectValue);
+  static const std::vector<std::array<int, 2>> ratios = {{13, 10}, {19, 10}, {115, 100}, {26, 10}, {11, 10}, {17, 10}, {125, 100}, {15, 10}};
+  auto pq = ratios[R(0, (int)ratios.size() - 1)];
+  int64_t p = pq[0], q = pq[1];
+  int64_t K = int64_t(3) * 4096 * R(1, 2000);
+  int64_t u0 = 4 * K * (4 * q - p) / 3, u1 = p * K;
+  WorldGen wg;
+  wg.prof.prefs = false;
+  wg.prof.oom_group = false;
+  wg.prof.outcomes = false;
+  wg.prof.zero_lines = false;
+  wg.prof.max_pids = 3;
+  World w;
+  Cg root;
+  root.stat = {{"anon", 0}, {"file", 0}, {"pgscan", 0}};
+  w.cgs.push_back(root);
+  auto mk = [&](const std::string& path, bool leaf, int64_t usage) {
+    Cg c = wg.genCg(path, leaf);
+    c.zombie = false;
+    if (leaf && c.pids.empty()) c.pids.push_back(wg.next_pid++);
+    if (!leaf) c.pids.clear();
+    c.mem_current = usage;
+    c.mem_low = c.mem_min = 0;
+    w.cgs.push_back(c);
+  };
+  int64_t big0 = (u1 * R(3, 9)) & ~int64_t(0xFFF); // the large sibling: more than the grower at the kill tick ...
+  int64_t big1 = big0;
+  big0 = big1 * 6; // ... but down to a sixth of what it had (ratio 1 / (0.1875 * 6 + 0.25) = 0.73)
+  mk("p", false, 0);
+  mk("p/s0", true, u0);
+  mk("p/s1", true, big0);
+  mk("p/s2", true, int64_t(4096) * R(1, 100));
+  w.find("p")->mem_current = u0 + big0;
+  wg.genHost();
+  w.host = wg.w.host;
+  sc["world"] = w.toJson();
+  Json::Value a(Json::objectValue);
+  a["name"] = "kill_by_memory_size_or_growth";
+  a["args"]["cgroup"] = "p/*";
+  a["args"]["post_action_delay"] = "0";
+  a["args"]["size_threshold"] = "100";
+  a["args"]["growing_size_percentile"] = "0";
+  {
+    // the ratio as a decimal: 13/10 -> "1.3"
+    std::string t = std::to_string(p / q) + ".";
+    int64_t rem = p % q;
+    for (int64_t d = q / 10; d >= 1; d /= 10) {
+      t += char('0' + rem / d);
+      rem %= d;
+    }
+    a["args"]["min_growth_ratio"] = t;
+  }
+  Json::Value meta(Json::objectValue);
+  meta["exact_growth"]["num"] = (Json::Int64)p;
+  meta["exact_growth"]["den"] = (Json::Int64)q;
+  sc["meta"] = meta;
+  Json::Value cfg(Json::objectValue);
+  cfg["rulesets"].append(rulesetJson(0, a, 0));
+  sc["config"] = cfg;
+  sc["interval"] = 5;
+  sc["devs"]["8:0"] = "ssd";
+  Json::Value ticks(Json::arrayValue), scripts(Json::objectValue);
+  for (int t = 0; t < 2; t++) {
+    Json::Value tick(Json::objectValue);
+    tick["adv_ms"] = 5000;
+    Json::Value ops(Json::arrayValue);
+    if (t == 1) {
+      for (auto& kv : std::vector<std::pair<std::string, int64_t>>{{"p/s0", u1}, {"p/s1", big1}}) {
+        Cg* c = w.find(kv.first);
+        c->mem_current = kv.second;
+        Op op;
+        op.op = "set";
+        op.cg = *c;
+        op.cg.pids.clear();
+        ops.append(op.toJson());
+      }
+    }
+    tick["ops"] = ops;
+    ticks.append(tick);
+    scripts["detectors"]["d0"].append(t == 1 ? "C" : "S");
+  }
+  sc["ticks"] = ticks;
+  sc["scripts"] = scripts;
+  return sc;
+}
+
 Json::Value gen() {
+  if (P(6)) return genExactGrowth();
   Json::Value sc(Json::objectValue);
   std::string plugin = oneOf(killPlugins());
   int n = R(2, 8);
@@ -258,6 +350,10 @@ Verdict run(const Json::Value& sc) {
   if (args.isMember("size_threshold")) in.spec.size_threshold = atoi(args["size_threshold"].asCString());
   if (args.isMember("growing_size_percentile")) in.spec.growing_size_percentile = atoi(args["growing_size_percentile"].asCString());
   if (args.isMember("min_growth_ratio")) in.spec.min_growth_ratio = strtold(args["min_growth_ratio"].asCString(), nullptr);
+  if (sc["meta"].isMember("exact_growth")) {
+    in.spec.ratio_num = sc["meta"]["exact_growth"]["num"].asInt64();
+    in.spec.ratio_den = sc["meta"]["exact_growth"]["den"].asInt64();
+  }
   if (sc["meta"].isMember("threshold_bytes")) in.spec.swap_threshold = sc["meta"]["threshold_bytes"].asInt64();
   in.spec.biased = args.get("biased_swap_kill", "false").asString() == "true";
   in.spec.resource = args.get("resource", "memory").asString();
@@ -365,6 +461,10 @@ Verdict run(const Json::Value& sc) {
   }
   if (sib.size() >= 3 && acc.size() < eligible.size()) v.nontrivial = true;
   v.labels.push_back(in.spec.name);
+  if (sc["meta"].isMember("exact_growth")) {
+    v.labels.push_back("growth_at_exactly_the_ratio");
+    v.nontrivial = true;
+  }
   if (gapSeen) v.labels.push_back("pgscan_sample_gap");
   return v;
 }
